@@ -49,7 +49,7 @@ func c20Action(code int, form string) refsmtpd.Action {
 
 func (p *c20) Gen(seed uint64, i int, tier string) (any, bool) {
 	nEnum := 200 * len(c20Forms) * len(c20Pos) * 2
-	extra := 2000
+	extra := 30000
 	if tier == "thorough" {
 		extra = 60000
 	}
